@@ -498,7 +498,7 @@ pub fn worker(w: &mut Worker) {
     }
     // halting late: thousands of command entries into loops that are still running
     {
-        let late: Vec<usize> = tier.pick(vec![999, 5000], vec![999, 5000, 5001, 60_000]);
+        let late: Vec<usize> = with_thresholds_usize(tier.pick(vec![999, 5000], vec![999, 5000, 5001, 60_000]), tier.pick(1024, 16384));
         let far = *late.iter().max().unwrap() + 10;
         let programs = [
             ("late-halt-while", "i = set 0\nwhile true\ni = calc ${i} + 1\nend\nafter = set reached".to_string()),
